@@ -295,3 +295,13 @@ def is_false(b) -> bool:
 
 def is_true(b) -> bool:
     return z3.is_true(z3.simplify(b))
+
+
+def ForAllP(vs, body, patterns=None, **kw):
+    """z3.ForAll that drops explicit patterns when z3 rejects them (patterns must not contain boolean structure)."""
+    if patterns:
+        try:
+            return z3.ForAll(vs, body, patterns=patterns, **kw)
+        except z3.Z3Exception:
+            pass
+    return z3.ForAll(vs, body, **kw)
